@@ -2,7 +2,7 @@
    correspondence check executes on both sides. Variables are indices into a
    list; every operation names its receiver and operands by index, so all
    aliasing shapes of the Go API are expressible. *)
-From Dec Require Export L3.Decimal L3.Cmp.
+From Dec Require Export L3.Decimal L3.Cmp L3.Round L3.Arith.
 Open Scope Z_scope.
 
 Definition store := list Dec.
@@ -23,14 +23,33 @@ Record result := mkRes { r_out : outcome; r_ints : list Z; r_bytes : list (list 
 Definition res_ok (ints : list Z) : result := mkRes Ok ints [].
 Definition res_none : result := mkRes Ok [] [].
 
-Definition b2z (b : bool) : Z := if b then 1 else 0.
 
 Inductive op :=
 | OCmp (x y : nat)
 | OSign (x : nat)
 | OSignbit (x : nat)
 | OIsZero (x : nat)
-| OIsInf (x : nat).
+| OIsInf (x : nat)
+| OAdd (z x y : nat)
+| OSub (z x y : nat)
+| OMul (z x y : nat)
+| OQuo (z x y : nat)
+| OFMA (z x y u : nat)
+| OSet (z x : nat)
+| ONeg (z x : nat)
+| OAbs (z x : nat)
+| OCopy (z x : nat)
+| OSetPrec (z : nat) (p : Z)
+| OSetMode (z : nat) (m : mode)
+| OSetInf (z : nat) (sb : bool).
+
+(* write the receiver back *)
+Definition put (s : store) (z : nat) (r : ores) : store * result :=
+  match r with
+  | OkR d => (set s z d, res_none)
+  | NaNR d => (set s z d, mkRes NaN [] [])
+  | CrashR => (s, mkRes Crash [] [])
+  end.
 
 Definition step (s : store) (o : op) : store * result :=
   match o with
@@ -39,6 +58,18 @@ Definition step (s : store) (o : op) : store * result :=
   | OSignbit x => (s, res_ok [b2z (Signbit (get s x))])
   | OIsZero x => (s, res_ok [b2z (IsZero (get s x))])
   | OIsInf x => (s, res_ok [b2z (IsInf (get s x))])
+  | OAdd z x y => put s z (Add (Nat.eqb z x) (Nat.eqb z y) (get s z) (get s x) (get s y))
+  | OSub z x y => put s z (Sub (Nat.eqb z x) (Nat.eqb z y) (get s z) (get s x) (get s y))
+  | OMul z x y => put s z (Mul (get s z) (get s x) (get s y))
+  | OQuo z x y => put s z (Quo (get s z) (get s x) (get s y))
+  | OFMA z x y u => put s z (FMA (Nat.eqb z u) (get s z) (get s x) (get s y) (get s u))
+  | OSet z x => put s z (Set_ (Nat.eqb z x) (get s z) (get s x))
+  | ONeg z x => put s z (Neg_ (Nat.eqb z x) (get s z) (get s x))
+  | OAbs z x => put s z (Abs_ (Nat.eqb z x) (get s z) (get s x))
+  | OCopy z x => put s z (Copy (Nat.eqb z x) (get s z) (get s x))
+  | OSetPrec z p => put s z (SetPrec (get s z) p)
+  | OSetMode z m => put s z (SetMode (get s z) m)
+  | OSetInf z sb => put s z (SetInf (get s z) sb)
   end.
 
 (* run a program, collecting the result and store after every step; stops at
